@@ -132,4 +132,29 @@ func (g *vfGen) genC17() {
 			g.emit(vfOp("mono", data, l1, l2))
 		}
 	}
+	// every pair of small limits on the first bytes of every sample: formats that share a prefix hand a file over
+	// from one check to another as the header grows (ttf -> x-msaccess is the documented case), and between the
+	// point where the first one lets go and the point where the second one takes hold there must be no gap
+	maxL := g.pick(24, 48)
+	// the formats tree.go documents as sharing their first bytes with another one
+	heads = append(heads,
+		append([]byte("\x00\x01\x00\x00Standard Jet DB\x00"), make([]byte, 40)...),
+		append([]byte("\x00\x01\x00\x00Standard ACE DB\x00"), make([]byte, 40)...),
+		append([]byte("\x00\x01\x00\x00Standard Jet"), g.bytes(40)...),
+		append([]byte("\x00\x01\x00\x00S"), g.bytes(40)...),
+		append([]byte("\x00\x01\x00\x00\x00\x0c\x00\x80\x00\x03\x00\x40"), g.bytes(40)...))
+	for _, h := range heads {
+		if len(h) < 3 {
+			continue
+		}
+		n := len(h)
+		if n > maxL {
+			n = maxL
+		}
+		for l1 := 1; l1 < n; l1++ {
+			for l2 := l1 + 1; l2 <= n; l2++ {
+				g.emit(vfOp("mono", h[:n], l1, l2))
+			}
+		}
+	}
 }
